@@ -689,3 +689,77 @@ Proof.
   - destruct (nbar s2); intros [= <- <-]; [apply P2; [discriminate|repeat split]|apply P1; repeat split].
   - intros [= <- <-]. apply P1, core_eq_refl.
 Qed.
+
+Lemma step_raw_ok s l s' os : wf s -> step_raw s l = Some (s', os) -> raw_ok s s' os.
+Proof.
+  intros W. destruct l.
+  - (* LStart *) cbn. destruct (negb (running s) && (wg s =? 0)); [core_tac W|discriminate].
+  - cbn. core_tac W.
+  - cbn. core_tac W.
+  - (* LGate *) cbn.
+    destruct (find_idx _ 0 (tasks s)) as [k|] eqn:FI; [|discriminate].
+    destruct (nth_error (tasks s) k) as [t|] eqn:E; [|discriminate].
+    apply find_idx_some in FI as (x & Hx & Px & _). rewrite Nat.sub_0_r, E in Hx. injection Hx as <-.
+    apply andb_true_iff in Px as [_ Px]. destruct (t_st t) eqn:St; try discriminate.
+    intros [= <- <-]. apply quiet_raw. destruct W as [W0 I4]. unfold set_task.
+    split; [split; [|exact I4]|split; [reflexivity|split; [|no_start_tac]]].
+    + unfold wf0. cbn. eapply wfp_upd_noq; eauto; fin St.
+      left. destruct (wf_pre _ _ _ _ W0 _ _ E); congruence.
+    + cbn. apply mono_upd. intros x Hx. assert (x = t) by congruence. subst x.
+      split; [repeat split|]. cbn. rewrite St. cbn. split; auto. split; lia.
+  - cbn. core_tac W.
+  - cbn. core_tac W.
+  - (* LCallPush *) cbn. destruct (c_push s); core_tac W.
+  - cbn. core_tac W.
+  - (* LCbCtxEnd *) cbn. destruct (find_idx _ 0 (cbs s)); core_tac W.
+  - (* LRelRead *) cbn. destruct (rd s); try discriminate.
+    intros [= H]. apply quiet_raw. eapply read_cs_ok; eauto.
+  - (* LRelNext *) cbn. destruct (dp s); try discriminate. intros [= <- <-].
+    apply quiet_raw, extends_quiet; auto; [apply dequeue_extends|apply no_start_nil].
+  - cbn. destruct (dp s); try discriminate. core_tac W.
+  - apply acquire_ok; auto.
+  - apply handled_ok; auto.
+  - (* LRelDeliver *) cbn.
+    destruct (nth_error (units s) u) as [un|]; [|discriminate].
+    destruct (u_st un); try discriminate.
+    destruct (release_ids_ok (unit_tasks s u) s W) as (W1 & K1 & M1).
+    destruct (negb (u_chok un)); intros [= <- <-]; apply quiet_raw.
+    + eapply quiet_core_post; [split; [exact W1|split; [exact K1|split; [exact M1|]]]|repeat split]. no_start_tac.
+    + eapply quiet_core_post; [split; [exact W1|split; [exact K1|split; [exact M1|]]]|unfold set_unit; repeat split].
+      no_start_tac.
+  - (* LRelStop *) cbn.
+    destruct (find_op n (ops s)) as [[]|]; try discriminate.
+    destruct (stop_locked SCStop (s <| ops ::= del_op n |>)) as [s1 os1] eqn:SL.
+    intros [= <- <-]. apply quiet_raw.
+    assert (W1 : wf (s <| ops ::= del_op n |>)) by (eapply wf_core; [exact W|repeat split]).
+    destruct (stop_locked_ok _ _ _ _ W1 SL) as (W2 & K2 & M2 & N2).
+    split; auto. split; auto. split; auto. apply no_start_app; auto. apply no_start_single. discriminate.
+  - (* LRelCancel *) cbn.
+    destruct (find_op n (ops s)) as [[]|]; try discriminate.
+    intros [= <- <-]. apply quiet_raw.
+    set (s1 := s <| ops ::= del_op n |>).
+    assert (W1 : wf s1) by (eapply wf_core; [exact W|repeat split]).
+    destruct (assoc id (used s)) as [owner|].
+    + split; [apply wf_cancel_task; auto|]. split; [exact (proj1 (cancel_task_frame owner s1))|].
+      split; [exact (cancel_task_mono owner s1)|no_start_tac].
+    + apply core_quiet; auto; [repeat split|no_start_tac].
+  - (* LRelPush *) cbn.
+    destruct (find_op n (ops s)) as [[]|]; try discriminate.
+    destruct (negb (running s)); [core_tac W|].
+    destruct wantid; [|core_tac W].
+    destruct (send_fail s); [core_tac W|].
+    core_tac W.
+  - (* LRelCbWatch *) cbn -[complete_cb].
+    destruct (nth_error (cbs s) c) as [cb0|]; [|discriminate].
+    destruct (cb_watch cb0); try discriminate.
+    set (s1 := s <| cbs ::= upd_nth c (fun c0 : cb => c0 <| cb_watch := WDone |>) |>).
+    assert (C1 : core_eq s s1) by (unfold s1; repeat split).
+    assert (D : forall s2 os2, core_eq s s2 -> no_start os2 -> raw_ok s s2 os2).
+    { intros s2 os2 C N. apply quiet_raw, core_quiet; auto. }
+    destruct (assoc (cb_id cb0) (calls s)) as [j|]; [|intros [= <- <-]; apply D; auto; apply no_start_nil].
+    destruct (cb_slot cb0); [intros [= <- <-]; apply D; auto; apply no_start_nil|].
+    destruct (j =? c); [|intros [= <- <-]; apply D; auto; apply no_start_nil].
+    destruct (cb_ctx cb0) as [[]|]; intros [= H];
+    match type of H with complete_cb c ?r ?s0 = _ => destruct (complete_cb_core _ _ _ _ _ H) as [C2 N2] end;
+    (apply D; auto; eapply core_eq_trans; eauto).
+Qed.
